@@ -172,6 +172,64 @@ def same_object_phase(rep, rng, kinds, n_hist, k):
             rep.programs += 1
 
 
+def archive_read_phase(rep, rng, n_states, k):
+    """read-mode ZipFS/TarFS (an archive written from a random tree, then reopened): every query,
+    every equivalent spelling of every path of the tree and of a few missing ones, on the one
+    read-only object; answers must coincide (member lookup by raw spelling is what this catches)"""
+    import io
+    from fs.zipfs import ZipFS
+    from fs.tarfs import TarFS
+    from fs.memoryfs import MemoryFS
+
+    for kind, cls in (("zip-r", ZipFS), ("tar-r", TarFS)):
+        for st in range(n_states):
+            m = MemoryFS()
+            snap = []
+            for _ in range(rng.randint(2, 10)):
+                op = H.gen_op(rng, snap, ["a", "b", "c d"], spelling=False)
+                if op[0] in H.QUERIES or op[0] in ("settimes", "touch"):
+                    continue
+                H.apply_op(m, op)
+                snap = H.snapshot(m) or snap
+            bio = io.BytesIO()
+            w = cls(bio, write=True)
+            try:
+                for e in snap:
+                    if e[0] == "D":
+                        w.makedirs(e[1], recreate=True)
+                for e in snap:
+                    if e[0] == "F":
+                        w.writebytes(e[1], e[2])
+            finally:
+                w.close()
+            m.close()
+            bio.seek(0)
+            r = cls(bio)
+            rep.programs += 1
+            try:
+                paths = [e[1] for e in snap] + [clean_path(rng, snap) for _ in range(2)] + [""]
+                for cp in paths:
+                    sps = [sp for sp in spellings(rng, cp, snap, k) if _same_norm(sp, cp)]
+                    if not sps:
+                        continue
+                    for qn in QUERY_FUNCS:
+                        res = [(sp, query_all(r, qn, sp)) for sp in sps]
+                        rep.evaluations += len(res)
+                        rep.nontrivial("archive-read", kind, qn, cp, tuple(e[:2] for e in snap))
+                        rep.count("archive-read/" + kind)
+                        ref = res[0]
+                        for x in res[1:]:
+                            if x[1] != ref[1]:
+                                rep.violation({"backend": kind, "tree": [[e[0], e[1]] + ([e[2].decode("latin-1")] if e[0] == "F" else []) for e in snap],
+                                               "query": qn, "spelling_a": ref[0], "spelling_b": x[0], "a": repr(ref[1])[:300], "b": repr(x[1])[:300]},
+                                              "%s.%s: on one read-mode archive, spellings %r and %r answer differently: %s vs %s (tree %r)" % (
+                                                  kind, qn, ref[0], x[0], repr(ref[1])[:120], repr(x[1])[:120], [e[:2] for e in snap][:8]),
+                                              found_input=True, signature="C11/%s/%s/archive-read" % (kind, qn))
+                                break
+            finally:
+                r.close()
+
+
 def _same_norm(a, b):
     try:
         return norm(a) == norm(b)
@@ -190,6 +248,7 @@ def run(rep, tier, seed, deep=False):
                 "equivalent spellings (leading/trailing/double slash, './', detours through existing and missing names), each on a fresh copy "
                 "of the state; results, exception classes and resulting trees must coincide; distinct = distinct (backend, op, state)" % (n_states, KINDS, k))
     rep.assumptions = ["mount points are fixtures (steered)", "exists/isdir/isfile may return False instead of raising",
+                       "read-mode ZipFS/TarFS: archives written from random trees and reopened; every query x every path x its spellings on the one read-only object",
                        "FTPFS (thorough tier only): loopback pyftpdlib 1.5.10 server, MLSD and LIST variants, 25 states x every method x 5 "
                        "spellings per path + 30 same-object histories each; connection errors are infrastructure (retried, never a verdict)"]
     all_ops = H.QUERIES + H.MUT1 + H.MUT2
@@ -256,6 +315,7 @@ def run(rep, tier, seed, deep=False):
         same_object_phase(rep, rng, KINDS + ["cachedir-os", "mount-nested", "multi2"], 8 if quick else 60, k)
         same_object_phase(rep, rng, ["cachedir-mem", "mount", "mount-nested"], 60 if quick else 400, k)
         same_object_phase(rep, rng, ["os-links"], 10 if quick else 120, k)
+        archive_read_phase(rep, rng, 12 if quick else 120, k)
         if not quick:
             # FTPFS against a loopback pyftpdlib server, MLSD and LIST variants (thorough tier only, small budget:
             # every variant runs on a server of its own, ~15 ms)
@@ -272,6 +332,27 @@ def run(rep, tier, seed, deep=False):
 
 def replay(rep, case):
     c = case["case"]
+    if "tree" in c and c.get("backend") in ("zip-r", "tar-r"):
+        import io
+        from fs.zipfs import ZipFS
+        from fs.tarfs import TarFS
+
+        cls = ZipFS if c["backend"] == "zip-r" else TarFS
+        bio = io.BytesIO()
+        w = cls(bio, write=True)
+        for e in c["tree"]:
+            if e[0] == "D":
+                w.makedirs(e[1], recreate=True)
+        for e in c["tree"]:
+            if e[0] == "F":
+                w.writebytes(e[1], e[2].encode("latin-1"))
+        w.close()
+        bio.seek(0)
+        r = cls(bio)
+        ra, rb = query_all(r, c["query"], c["spelling_a"]), query_all(r, c["query"], c["spelling_b"])
+        r.close()
+        print(ra, rb)
+        return 0 if ra == rb else 1
     snap = [tuple([e[0], e[1]] + ([e[2].encode("latin-1")] if e[0] == "F" else [])) for e in c["pre_tree"]]
     ra = run_variant(c["backend"], snap, H.fix_op_bytes(tuple(c["op_a"])))
     rb = run_variant(c["backend"], snap, H.fix_op_bytes(tuple(c["op_b"])))
